@@ -90,13 +90,16 @@ theorem C08_expiry_update_table (a b : Nat) :
 /-- **The weight command.** For a physically present key, with `mid` the state right after the in-place update
     (`upsertMid`: only `store` at `k` and the expiry index differ from `s`): the weight is the explicit one, else
     the weight function of the new value (with the TTL surcharge iff a TTL is part of the request), else the charged
-    weight `± ttlEntry` when a TTL is added to a key without / removed from a key with one; that weight is checked
+    weight `± ttlEntry` when a TTL is added to a key without / removed from a key with one AND the key id is charged
+    (`existing`, an `Option`: fix c86efeb — a key id that is no longer charged has no weight to adjust; before, `0` was
+    used for it, so `0 ± ttlEntry` was sent, resp. the call panicked on `0 - ttlEntry`); that weight is checked
     (`i64`, `> 0` — panics in the caller, after the update) and sent as `UpdateWeight(id, weight)`; when no rule
-    applies the call is answered Accepted on the spot and nothing is sent. -/
+    applies — in particular for a pure time-to-live change of a key id that is not charged — the call is answered
+    Accepted on the spot and nothing is sent. -/
 theorem C08_weight_command (s : State) (c k : Nat) (v : Option Nat) (w : Option Int) (ttl : Option Nat) (rm : Bool)
     (e : Entry) (hsh : s.shutting = false) (hk : s.store.get? k = some e)
     (hov : ∀ t, ttl = some t → rm = false → ∃ x, addTime s.now t = some x) :
-    let existing : Int := match s.adm.kw.get? e.id with | some wk => wk.weight | none => 0
+    let existing : Option Int := (s.adm.kw.get? e.id).map (·.weight)
     let ne : Option Nat := if rm then none else match (generalizing := false) ttl with | some t => some (s.now + t) | none => e.expiry
     let mid : State := upsertMid s k e v ne
     clientUpsert s c k v w ttl rm =
@@ -107,8 +110,8 @@ theorem C08_weight_command (s : State) (c k : Nat) (v : Option Nat) (w : Option 
                 | some val => some (s.cfg.weightOf val ttl.isSome)
                 | none =>
                   match e.expiry, ne with
-                  | none, some _ => some (existing + s.cfg.ttlEntry)
-                  | some _, none => some (existing - s.cfg.ttlEntry)
+                  | none, some _ => existing.map (· + s.cfg.ttlEntry)
+                  | some _, none => existing.map (· - s.cfg.ttlEntry)
                   | _, _ => none) with
         | some weight =>
           if !inI64 weight then (mid, .panic .weightOverflow)
@@ -340,6 +343,27 @@ example :
     (clientUpsert c08Live 0 1 none none (some 2000000000) false).1.ttl = [((1, 1), 5000000000)] ∧
     (clientUpsert c08Live 0 1 none (some 7) none false).1.queue = [(.updateWeight 1 7, some 1)] := by
   refine ⟨rfl, rfl, rfl, rfl, rfl, rfl, rfl⟩
+
+/-- the `existing = none` rows of `C08_weight_command` (fix c86efeb): the key is stored but its id is not charged (at
+    Layer A no reachable state is like that, `TtlInv.charged`; with the caller-side program interleaved — Layer B — the
+    id can be evicted or swept between the in-place update and `weight_of`). Removing or adding a time-to-live then
+    sends nothing and is answered Accepted on the spot (before the fix: panic on `0 - 24`, resp. `UpdateWeight(1, 24)`). -/
+example :
+    let s := { c08Live with adm := { max := 100, used := 0, kw := [] } }
+    s.adm.kw.get? 1 = none ∧
+    (clientUpsert s 0 1 none none none true).2 = .ack 1 .accepted ∧
+    (clientUpsert s 0 1 none none none true).1.queue = [] ∧
+    (clientUpsert s 0 1 none none none true).1.ttl = [] ∧
+    (clientUpsert s 0 1 none none none true).1.store.get? 1 = some { value := 10, id := 1, expiry := none, soft := false } := by
+  refine ⟨rfl, rfl, rfl, rfl, rfl⟩
+
+example :
+    let s := { c08Live with store := [(1, { value := 10, id := 1, expiry := none, soft := false })], ttl := [],
+                            adm := { max := 100, used := 0, kw := [] } }
+    (clientUpsert s 0 1 none none (some 2000000000) false).2 = .ack 1 .accepted ∧
+    (clientUpsert s 0 1 none none (some 2000000000) false).1.queue = [] ∧
+    (clientUpsert s 0 1 none none (some 2000000000) false).1.ttl = [((1, 1), 5000000000)] := by
+  refine ⟨rfl, rfl, rfl⟩
 
 /-- `C08_fieldwise_time_overflow` is not vacuous -/
 example : addTime c08Live.now 18446744073709551615999999999 = none := by decide
